@@ -698,6 +698,7 @@ pub fn gen_run(rng: &mut Rng, n: usize, k: &RunKnobs) -> RunSpec {
         // tokio's cooperative budget only bites when many operations happen in one
         // poll: mostly wide graphs
         coop: coop_flag,
+        share_intr_state: false,
         rev_calls: if reverse { [1, 1, 1, 2, 3][rng.below(5)] } else { 1 },
         intr_hooks: strategy.has_channel() && rng.chance(1, 4),
         signals_anytime: signals > 0 && api.has_limit() && rng.chance(1, 3),
@@ -923,6 +924,36 @@ pub fn gen_case(prop: Prop, rng: &mut Rng) -> GenCase {
             sched[k - 2].abort_64 = sched[k - 2].abort_64.max(3);
         }
         runs[k - 1].carried_slots = rng.range(1, 3) as u8;
+    }
+    if mode == Mode::History && prop != Prop::C15 && FEATURE_I && rng.chance(2, 3) {
+        // the last two runs are given reborrows of ONE interruptibility state (as a caller
+        // that runs several graphs under one interruption scope does): signal and
+        // counters persist from one run into the next
+        let k = runs.len();
+        if runs[k - 2].strategy.has_channel() && !runs[k - 1].api.interruptible() {
+            // give the last run an API that takes an interruptibility state
+            let cands: Vec<Api> = ALL_APIS.iter().copied().filter(|a| a.interruptible()).collect();
+            let api = cands[rng.below(cands.len())];
+            let r = &mut runs[k - 1];
+            r.api = api;
+            if !api.has_limit() {
+                r.limit = None;
+            }
+            if !api.can_fail() {
+                for g in r.gates.iter_mut() {
+                    g.fail = false;
+                }
+            }
+            r.may_forget = r.may_forget && api.is_stream();
+            r.unwind_drop_mask = if api.is_stream() { r.unwind_drop_mask } else { 0 };
+        }
+        if runs[k - 2].strategy.has_channel() && runs[k - 1].api.interruptible() {
+            runs[k - 1].strategy = runs[k - 2].strategy;
+            runs[k - 2].share_intr_state = true;
+            runs[k - 1].share_intr_state = true;
+            runs[k - 2].may_drop_sender = false;
+            runs[k - 1].may_drop_sender = false;
+        }
     }
     if mode == Mode::Concurrent {
         // the cooperative budget belongs to the task that polls all the runs: it is
